@@ -2,14 +2,16 @@
 
 (a) xh : ``_enforce_response_budgets`` — raises <=> wire > wire_cap or ext > ext_cap (unbounded ints / None).
 (b) xh : ``predict_externalize_bytes_for_batch/_for_collector`` against ``maybe_externalize_batch/_collector``
-         (real bytecode over the size-abstract Arrow model, recording storage): prediction 0 <=> no upload,
-         and prediction <= bytes handed to storage.
+         (real bytecode over the size-abstract Arrow model, recording storage): prediction 0 <=> no upload
+         (what is refused before upload is exactly what would be uploaded), reported byte count = bytes handed to storage.
 (c) xh : epilogues of ``_run_unary_sync`` and ``_run_http_exchange_turn`` (real bytecode, re-globalised
          environment): body length <= wire cap unless the body is the error envelope; bytes uploaded for a
          successful response <= external cap.
-(d) xh : ``_run_http_producer_turn``: producing continues only while the body is below the wire cap (so the
+(d) xh : ``_run_http_producer_turn``: producing continues only while the body is within the wire cap (so the
          body exceeds it by at most the last batch + sentinel), and the bytes uploaded during a successful
          turn never exceed the external cap.
+In (c)/(d) an error outcome is accepted only when it is a cap refusal (RuntimeError) AND a cap is exceeded (by the
+discarded body, by what was uploaded, or by the upload a pre-flight refusal avoided): cap itself is delivered.
 
 Size-abstract Arrow model (shared with C11): a batch carries ``num_rows``, ``schema``, logical size
 ``L = get_total_buffer_size()`` and framed size ``F = L + gap`` with ``gap >= GAP_MIN`` (IPC message
@@ -60,7 +62,9 @@ BOUNDS = (
 OUTSIDE = (
     "real IPC framing sizes (model: F = L + gap, gap >= 8, validated on samples; sliced batches whose buffers are larger "
     "than what IPC writes are outside); compression of externalised payloads (cap arithmetic uses the pre-compression size); "
-    "response Content-Encoding; the falcon resource layer that maps status to headers; request parsing"
+    "response Content-Encoding; the falcon resource layer that maps status to headers; request parsing; "
+    "how close predict_externalize_bytes_* is to the uploaded size (only: 0 <=> no upload); how many ticks a producer turn runs when no wire cap is set; "
+    "whether the producer loop goes on at exactly `cap` body bytes (both < and <= keep the excess within the last batch)"
 )
 ASSUMPTIONS = [
     "size-abstract Arrow: get_total_buffer_size()=L, framed size F=L+gap (gap>=8), schema message H>=8, EOS=8",
@@ -68,6 +72,8 @@ ASSUMPTIONS = [
     "_mint_cursor_token stub returns an opaque token remembering the state's cursor",
     "_write_error_batch stub writes one zero-row error batch of framed size E>=8",
     "unary: request parsing/validation, access log and dispatch hook are no-ops (not the subject)",
+    "the response body is the first sink a dispatch path opens (used to size a body that was built and then replaced by the error envelope)",
+    "a refusal is justified iff the discarded body > wire cap, or uploaded bytes (+ the framed upload stream a pre-flight refusal avoided) > external cap",
 ]
 
 GAP_MIN = 8
@@ -82,7 +88,7 @@ HOLD: dict = {}
 
 def reset(H: int = 8, Z: int = 8, E: int = 8, P: int = 8, LOGF: int = 8) -> None:
     HOLD.clear()
-    HOLD.update(H=H, Z=Z, E=E, P=P, LOGF=LOGF, sinks=[], uploads=[], uploads_L=[], starts=[], minted=[], errors=[])
+    HOLD.update(H=H, Z=Z, E=E, P=P, LOGF=LOGF, sinks=[], uploads=[], uploads_L=[], uploads_tags=[], starts=[], minted=[], errors=[])
     ext._current_externalized_bytes.set(0)  # per-call counter (a stale symbolic value must not leak between paths)
     rsp._current_response_status.set(HTTPStatus.OK)
 
@@ -250,6 +256,7 @@ class RecStorage:
     def upload(self, data, schema, *, content_encoding=None):  # type: ignore[no-untyped-def]
         HOLD["uploads"].append(len(data))
         HOLD["uploads_L"].append(_sum([e[1].L for e in data.log if e[0] == "batch" and e[1].kind == "data"]))
+        HOLD["uploads_tags"].extend([e[1].tag for e in data.log if e[0] == "batch" and e[1].kind == "data"])
         return "https://storage.invalid/blob/1"
 
 
@@ -540,6 +547,9 @@ def _real_run(kind: str, base_url: str, threshold, wire_cap, ext_cap, with_stora
     return [r for r in client.responses if suffix in r["url"]], err
 
 
+_SLACK = 64
+
+
 def _real_sweep(kind: str, rows: list[int], fin_same: bool = False, log: bool = False) -> str | None:
     """Caps placed on and next to the real logical / framed / body sizes; returns the first violated response."""
     from vgi_rpc.conformance.fake_storage import serve_in_thread
@@ -557,9 +567,19 @@ def _real_sweep(kind: str, rows: list[int], fin_same: bool = False, log: bool = 
         body = max(r["body"] for r in inline)
         ptr_body = max(r["body"] for r in dry)
         for thr in (0, Lmin, Lmin + 1):
-            for ext_cap in (None, L - 1, L, F - 1, F):
-                for wire_cap in ((big,) if kind == "producer" else (None, ptr_body - 1, ptr_body, body - 1, body)):
+            for ext_cap in (None, L - 1, L, F - 1, F, F + _SLACK):
+                for wire_cap in ((big,) if kind == "producer" else (None, ptr_body - 1, ptr_body, body - 1, body, body + _SLACK)):
                     resps, err = _real_run(kind, base, thr, wire_cap, ext_cap)
+                    # the other direction: with every cap absent or clear of the size it bounds (the largest body / the
+                    # whole framed upload; real sizes vary by a few bytes between runs — ids in the metadata —, hence
+                    # the slack; the exact boundary is the symbolic item's), nothing is oversize: the call must be served
+                    roomy = (wire_cap is None or wire_cap >= body + _SLACK) and (ext_cap is None or ext_cap >= F + _SLACK)
+                    # (judged on the server's responses only: what the client does with them afterwards is not the subject)
+                    bad = next((r for r in resps if r["error"]), None)
+                    if roomy and bad is not None:
+                        return (f"real {kind} call (batches of {rows} int64 rows; body {body} B, framed upload {F} B; threshold={thr}, "
+                                f"max_response_bytes={wire_cap}, max_externalized_response_bytes={ext_cap}): {bad['url']} refused (status "
+                                f"{bad['status']}, error flag) although no cap is exceeded")
                     for r in resps:
                         if r["error"]:
                             continue
@@ -593,7 +613,8 @@ def _message_ends(body: bytes) -> list[int]:
 
 def _replay_producer_body(args: dict) -> str | None:
     """Real producer (3 ticks, no logs, inline): with the cap on / next to every message boundary, each data batch
-    after the first of a turn must start below the cap."""
+    after the first of a turn must start with the body still within the cap (at `cap` bytes exactly is admitted: the
+    property bounds the excess by the last batch, it does not fix the loop's comparison)."""
     from vgi_rpc.conformance.fake_storage import serve_in_thread
 
     _REAL.update(rows=[64, 64, 64], fin_same=bool(args.get("fin_same")), log=False)
@@ -612,9 +633,9 @@ def _replay_producer_body(args: dict) -> str | None:
                 n_batches = len(e) - 1
                 last_data = n_batches - (1 if (has_sentinel and n_batches >= 1 and r["url"].endswith(("/init", "/exchange")) and _ends_with_sentinel(r["content"])) else 0)
                 for j in range(2, last_data + 1):
-                    if not (e[j - 1] < cap):
+                    if not (e[j - 1] <= cap):
                         return (f"real producer turn ({r['url']}) with max_response_bytes={cap}: data batch #{j} was produced although the body "
-                                f"already held {e[j - 1]} bytes (>= cap); body is {len(r['content'])} bytes")
+                                f"already held {e[j - 1]} bytes (> cap): the body exceeds the cap by more than its last batch; body is {len(r['content'])} bytes")
         return None
     finally:
         shutdown()
@@ -688,8 +709,6 @@ def _replay_predict_collector(args: dict) -> str | None:
     pred, ups, what = _real_replay_predict(True, 1 if args["L"] else 0, args["L"], args["threshold"], args["with_storage"])
     if (pred == 0) != (not ups):
         return f"collector holding a {what}: predict_externalize_bytes_for_collector = {pred} but maybe_externalize_collector uploaded {ups}"
-    if ups and pred > ups[0]:
-        return f"prediction {pred} above uploaded {ups[0]} ({what})"
     return None
 
 
@@ -697,8 +716,6 @@ def _replay_predict_batch(args: dict) -> str | None:
     pred, ups, what = _real_replay_predict(False, args["rows"], args["L"], args["threshold"], args["with_storage"])
     if (pred == 0) != (not ups):
         return f"{what}: predict_externalize_bytes_for_batch = {pred} but maybe_externalize_batch uploaded {ups}"
-    if ups and pred > ups[0]:
-        return f"prediction {pred} above uploaded {ups[0]} ({what})"
     return None
 
 
@@ -729,8 +746,9 @@ def predict_batch_matches_upload(L: int, gap: int, threshold: int, rows: int, wi
     if (pred == 0) != (len(ups) == 0):
         return False
     if ups:
-        # prediction is a lower bound of what reached storage, the reported figure is exact, a pointer replaces the batch
-        return pred <= ups[0] and n == ups[0] and ob.kind == "pointer" and ocm is not None
+        # the reported figure is exact (the cap accounting adds it up), a pointer replaces the batch.  How close the
+        # prediction is to what reaches storage (today: the logical size, a lower bound) is not stated by the property.
+        return n == ups[0] and ob.kind == "pointer" and ocm is not None
     return n == 0 and ob is b and ocm is None
 
 
@@ -762,7 +780,7 @@ def predict_collector_matches_upload(L: int, gap: int, threshold: int, has_data:
     if (pred == 0) != (len(ups) == 0):
         return False
     if ups:
-        return pred <= ups[0] and n == ups[0] and len(lst) == 1 and lst[0][0].kind == "pointer"
+        return n == ups[0] and len(lst) == 1 and lst[0][0].kind == "pointer"
     return n == 0 and len(lst) == len(out.batches)
 
 
@@ -866,6 +884,7 @@ def run_producer_turn(app, state):  # type: ignore[no-untyped-def]
     del HOLD["starts"][:]
     del HOLD["uploads"][:]
     del HOLD["uploads_L"][:]
+    del HOLD["uploads_tags"][:]
     del HOLD["errors"][:]
     rsp._current_response_status.set(HTTPStatus.OK)
     outcome = FOutcome()
@@ -876,6 +895,39 @@ def run_producer_turn(app, state):  # type: ignore[no-untyped-def]
 
 def _is_sentinel(entry) -> bool:  # type: ignore[no-untyped-def]
     return entry[0] == "batch" and entry[1].kind == "zero" and entry[2] is not None and isinstance(entry[2].get(STATE_KEY), Tok)
+
+
+def _only_cap_refusals() -> bool:
+    """Every error batch written on this path carries a cap refusal (`RuntimeError`, the class
+    `_enforce_response_budgets` documents).  Anything else swallowed by the dispatcher's own broad
+    `except Exception` (a TypeError from cap arithmetic, an AttributeError on a model object, ...)
+    is NOT an acceptable outcome in this input space: the path is a counterexample and the real
+    replay decides whether the repository or the model is at fault."""
+    errs = HOLD["errors"]
+    if not errs:
+        return False
+    for e in errs:
+        if isinstance(e, HarnessModelError):
+            raise e
+        if not isinstance(e, RuntimeError):
+            return False
+    return True
+
+
+def _refusal_justified(returned_sink, has_wc, wire_cap, has_ec, ext_cap, pending_upload) -> bool:  # type: ignore[no-untyped-def]
+    """An RPC error replaces the response only when something IS over a cap (cap-1 / cap / cap+1:
+    a body or an upload of exactly `cap` bytes is delivered): the body that was built and discarded
+    exceeds the wire cap, or the bytes uploaded so far — plus, when the refusal came before the
+    upload, the `pending_upload` bytes that upload would have handed to storage — exceed the external cap."""
+    sinks = HOLD["sinks"]
+    body0 = sinks[0] if sinks else None  # the response body is the first sink a dispatch path opens
+    if has_wc and body0 is not None and body0 is not returned_sink and body0.pos > wire_cap:
+        return True
+    if has_ec:
+        up = _sum(HOLD["uploads"])
+        if up > ext_cap or (pending_upload is not None and up + pending_upload > ext_cap):
+            return True
+    return False
 
 
 # ---------------------------------------------------------------------------
@@ -902,21 +954,25 @@ def exchange_response_within_caps(L: int, gap: int, nlog: bool, threshold: int, 
         sink = _exchange_turn(app, state=state, state_info=None, output_schema=SCHEMA, input_schema=None, input_batch=None,
                               custom_metadata=None, method_name="m", call_id=b"c", auth=None, transport_metadata={}, outcome=outcome)
     except HarnessModelError:
-        return False
+        raise
     except Exception:  # noqa: BLE001
         return False  # nothing in this space may turn into a 500
     ups = HOLD["uploads"]
     kinds = [e[1].kind for e in sink.log if e[0] == "batch"]
     is_error = outcome.status == "error"
     if is_error:
-        # the error envelope: exactly one error batch, flagged for the resource layer
-        return kinds == ["error"] and rsp._current_response_status.get() == HTTPStatus.INTERNAL_SERVER_ERROR
+        # the error envelope: nothing but the error, flagged for the resource layer; a cap refusal, and a justified one
+        if not (kinds == ["error"] and rsp._current_response_status.get() == HTTPStatus.INTERNAL_SERVER_ERROR):
+            return False
+        # (refused before upload: the upload stream — schema + log riding along + framed batch + EOS — counts)
+        pending = (H + (HOLD["LOGF"] if nlog else 0) + L + gap + EOS) if (with_storage and not ups) else None
+        return _only_cap_refusals() and _refusal_justified(sink, has_wc, wire_cap, has_ec, ext_cap, pending)
     if has_wc and sink.pos > wire_cap:
         return False
     if has_ec and _sum(ups) > ext_cap:
         return False
-    # a successful body carries the data (or its pointer) exactly once, with the refreshed cursor
-    return kinds.count("error") == 0 and (kinds.count("data") + kinds.count("pointer")) == 1 and len(HOLD["minted"]) == 1
+    # a successful body carries the data (or its pointer) exactly once
+    return kinds.count("error") == 0 and (kinds.count("data") + kinds.count("pointer")) == 1
 
 
 class _FInfo:
@@ -983,13 +1039,19 @@ def unary_response_within_caps(L: int, gap: int, rows: int, threshold: int, with
     try:
         sink, status = _unary(app, "m", _FInfo(), None)
     except HarnessModelError:
-        return False
+        raise
     except Exception:  # noqa: BLE001
         return False
     ups = HOLD["uploads"]
     kinds = [e[1].kind for e in sink.log if e[0] == "batch"]
     if status != HTTPStatus.OK:
-        return status == HTTPStatus.INTERNAL_SERVER_ERROR and kinds == ["error"]
+        if not (status == HTTPStatus.INTERNAL_SERVER_ERROR and kinds == ["error"]):
+            return False
+        # the only acceptable error here is a cap refusal (the method succeeds, the model writes every size), and only
+        # when a cap IS exceeded: by the discarded body, by what was uploaded, or — refused before upload — by the
+        # upload stream (schema + framed batch + EOS) that would have gone to storage
+        pending = (H + L + gap + EOS) if (with_storage and not ups) else None
+        return _only_cap_refusals() and _refusal_justified(sink, has_wc, wire_cap, has_ec, ext_cap, pending)
     if has_wc and sink.pos > wire_cap:
         return False
     if has_ec and _sum(ups) > ext_cap:
@@ -1030,12 +1092,22 @@ def producer_turn_uploads_within_external_cap(n: int, L0: int, g0: int, L1: int,
     try:
         blob, outcome, starts, ups = run_producer_turn(app, state)
     except HarnessModelError:
-        return False
+        raise
     except Exception:  # noqa: BLE001
         return False
     if outcome.status == "error":
-        # refused (not a successful response): must be flagged for the resource layer
-        return rsp._current_response_status.get() == HTTPStatus.INTERNAL_SERVER_ERROR
+        # refused (not a successful response): must be flagged for the resource layer ...
+        if rsp._current_response_status.get() != HTTPStatus.INTERNAL_SERVER_ERROR:
+            return False
+        # ... must be a cap refusal (the scripted state never fails, the model writes every size), and a justified one:
+        # what was uploaded during the turn — plus, when the refusal came before the upload of the tick just produced,
+        # the upload stream that tick would have handed to storage (schema + log + framed batch + EOS) — exceeds the cap
+        k = state.cursor - 1
+        pending = None
+        if 0 <= k < n and k not in HOLD["uploads_tags"]:
+            Lk, gk, lg = script[k]
+            pending = HOLD["H"] + Lk + gk + (HOLD["LOGF"] if lg else 0) + EOS
+        return _only_cap_refusals() and _refusal_justified(None, False, 0, True, ext_cap, pending)
     if _sum(ups) > ext_cap:
         # known finding: the pre-flight sums logical sizes (lower bound) and nothing re-checks after the upload.
         # With the finding listed as open, exactly that site is carved out: the logical sizes did fit.
@@ -1045,7 +1117,7 @@ def producer_turn_uploads_within_external_cap(n: int, L0: int, g0: int, L1: int,
 
 @cond(q=60, t=300, stubs=_STUBS_D, encoded=[aps._run_http_producer_turn, wire._flush_collector],
       bound="<= %d ticks with (L, gap) each, log on the first, wire cap int/None, no external storage; sizes 0..%d" % (_TICKS, _SZ),
-      replay=_replay_producer_body, signature=lambda a, c: "C16:producer:continues-at-or-over-wire-cap")
+      replay=_replay_producer_body, signature=lambda a, c: "C16:producer:continues-over-wire-cap")
 def producer_turn_body_exceeds_cap_by_last_batch_only(n: int, L0: int, g0: int, L1: int, g1: int, L2: int, g2: int, log0: bool, fin_same: bool,
                                                       wire_cap: int, has_wc: bool, H: int, Z: int) -> bool:
     """
@@ -1061,16 +1133,19 @@ def producer_turn_body_exceeds_cap_by_last_batch_only(n: int, L0: int, g0: int, 
     try:
         blob, outcome, starts, ups = run_producer_turn(app, state)
     except HarnessModelError:
-        return False
+        raise
     except Exception:  # noqa: BLE001
         return False
     if outcome.status == "error" or ups:
         return False
-    # every produce iteration after the first started below the cap (no cap: exactly one data iteration per turn)
-    for s in starts[1:]:
-        if not has_wc or not (s < wire_cap):
-            return False
-    # so: body <= (cap - 1) + last iteration's batches + sentinel + EOS
+    # "exceeds the wire cap by at most its last batch": every produce iteration after the first started with the body
+    # still within the cap (<=: a loop that goes on at exactly `cap` bytes still overshoots by one batch only).
+    # Without a wire cap there is nothing to exceed: how many ticks a turn then runs is the server's policy.
+    if has_wc:
+        for s in starts[1:]:
+            if not (s <= wire_cap):
+                return False
+    # so: body <= cap + last iteration's batches + sentinel + EOS
     last_start = starts[-1]
     written_after = len(blob) - last_start
     seen_sentinel = 0
@@ -1088,4 +1163,4 @@ def producer_turn_body_exceeds_cap_by_last_batch_only(n: int, L0: int, g0: int, 
     allowed = last_flush + seen_sentinel * Z + EOS
     if len(starts) == 1:
         allowed = allowed + H  # the schema message is written with the first batch
-    return written_after == allowed and (len(starts) == 1 or last_start < wire_cap)
+    return written_after <= allowed
